@@ -85,7 +85,19 @@ def audit(name, all_checks, tier, configs):
             }
             if rc not in (0, 1):
                 res["checks"][p]["tail"] = out[-800:]
-        res["caught_by"] = [p for p, r in res["checks"].items() if r["exit"] == 1]
+        # keep the verdicts of checks not re-run this time (from an earlier audit of the same seed)
+        old_path = os.path.join(sdir, "result.json")
+        if not all_checks and os.path.exists(old_path):
+            try:
+                old = json.load(open(old_path))
+                for p, r in old.get("checks", {}).items():
+                    if p not in res["checks"]:
+                        r = dict(r)
+                        r.setdefault("from_earlier_audit", old.get("at"))
+                        res["checks"][p] = r
+            except Exception:
+                pass
+        res["caught_by"] = sorted(p for p, r in res["checks"].items() if r["exit"] == 1)
     finally:
         sh(["git", "-C", "/repo", "worktree", "remove", "--force", wt])
         shutil.rmtree(wt, ignore_errors=True)
